@@ -118,9 +118,23 @@ def safe_loop(method, mode, vol, extra_first=True):
                 '(propensity_destination[q] > 0 or propensity_destination[q] == 0) and '
                 'implies(propensity_destination[q] > 0, forall(lambda s: implies(0 <= s and s < self.num_species and consumed(self, s, q), '
                 'state[s] >= real(trunc(need(self, s, q))))) and propensity_destination[q] == %s)))' % (val % 'q'))
+        # the converse (C05: the safe interface samples the SAME master equation wherever reactions can fire): a reaction all of whose table
+        # entries are satisfied by the state gets exactly its rate law (clipped at 0 with a warning), not 0 and not a stale value.  Stated over the
+        # table entries; together with table_rows (every consumed species s of reaction q sits at position ccount(q, s) with its need, and the
+        # positions 0 .. ccount(q, num_species) - 1 are exactly those) this is "every consumed species is present in the needed amount"
+        RII = 'self.reaction_input_indices'
+        allin = ('forall(lambda j: implies(0 <= j and j < %s, state[%s[%%s, j, 0]] >= real(%s[%%s, j, 1])))' % (CC % ('%s', 'self.num_species'), RII, RII))
+        exact = ('forall(lambda q: implies(0 <= q and q < self.rxn_ind and %s, propensity_destination[q] == ite(%s < 0, 0.0, %s)))'
+                 % (allin % ('q', 'q', 'q'), val % 'q', val % 'q'))
         outer = c.loop(0)
         inner = c.loop(1)
         outer.invariant(done, label='done').also_modifies('self.s_ind', 'self.prop_is_0')
+        outer.invariant(exact, label='exact-where-the-reactants-are-present')
+        inner.invariant(exact, label='exact-where-the-reactants-are-present')
+        inner.invariant('implies(self.prop_is_0 == 1, self.s_ind >= 1 and self.s_ind - 1 < %s and '
+                        'state[%s[self.rxn_ind, self.s_ind - 1, 0]] < real(%s[self.rxn_ind, self.s_ind - 1, 1]))'
+                        % (CC % ('self.rxn_ind', 'self.num_species'), RII, RII), label='zeroed-only-by-an-unsatisfied-entry')
+        c.ensures(exact.replace('q < self.rxn_ind', 'q < self.num_reactions'), label='rate-law-wherever-the-reactants-are-present')
         inner.invariant('self.s_ind <= ' + CC % ('self.rxn_ind', 'self.num_species'), label='scan-bounded') \
              .invariant('self.prop_is_0 == 0 or self.prop_is_0 == 1', label='flag') \
              .invariant('implies(self.prop_is_0 == 0, forall(lambda s: implies(0 <= s and s < self.num_species and '
